@@ -565,4 +565,33 @@ class Conversions(Harness):
         return None
 
 
-HARNESSES = [TableOps(), Nested(), Conversions()]
+
+from checks.C02 import VCF as _VCF
+
+
+class ParsedSelection(_VCF):
+    """a VCF table read from a file (nested, typed INFO table; genotype columns) indexed with a re-ordering / repeating integer list: every
+    column of the result, the INFO keys included, holds the selected records' values -- also when an INFO key was read on the whole table
+    before the selection (the C02 VCF harness with selection histories)"""
+    name = "parsed_selection"
+    bounds = {"quick": "3 records whose INFO carries DP (Integer) and AF (Float; forms d.d / .dd / absent); index lists [2,0,1], [1,0], [0,0,2], "
+                       "[2,1,0]; with and without DP / AF read on the whole table first; lazy and eager reading; VCFBuffer and VCFBuffer2",
+              "thorough": "adds VCFMatrixBuffer and more index lists"}
+
+    def skeletons(self, tier, seed):
+        R = lambda chrom, pos, idw, info, dpw, af: dict(chrom=chrom, pos=pos, id=idw, ref=1, alt=1, info=info, dpw=dpw, fmt="GT", samples=["gt", "gt"],
+                                                        **({"af": af} if af else {}))
+        recs = [R(1, 1, 1, "dp", 1, (1, 1)), R(2, 2, 1, "fl_dp", 2, None), R(1, 1, 2, "dp", 1, (0, 2))]
+        out = []
+        sels = [[2, 0, 1], [1, 0], [0, 0, 2], [2, 1, 0]] + ([[1, 2, 0], [2, 2], [0, 2]] if tier == "thorough" else [])
+        for buf in ("VCFBuffer", "VCFBuffer2") + (("VCFMatrixBuffer",) if tier == "thorough" else ()):
+            for sel in sels:
+                for touch in ([], ["DP"], ["AF"]):
+                    for lazy in (False, True):
+                        if tier == "quick" and lazy and (buf != "VCFBuffer" or sel not in ([2, 0, 1], [0, 0, 2])):
+                            continue
+                        out.append(dict(recs=recs, buffer=buf, crlf=False, prior=None, select=sel, touch=touch, lazy=lazy))
+        return out
+
+
+HARNESSES = [TableOps(), Nested(), Conversions(), ParsedSelection()]
